@@ -116,6 +116,10 @@ def make_case(rng, i, tier):
     g, sg = gen.gen_fst(rng, nstates=nb, in_syms=B, out_syms=Cc)
     if R == "Boolean":
         f, g = gen.fst_to_bool(f), gen.fst_to_bool(g)
+    if rng.random() < 0.2:
+        f = {**f, "use_set_arc": True}       # built with `set_arc` where a triple occurs once (same machine)
+    if rng.random() < 0.1:
+        g = {**g, "use_set_arc": True}
     if R == "MaxTimes":
         cap = lambda w: w if common.num(w) <= 1 else "1"  # noqa
         for d in (f, g):
